@@ -350,7 +350,7 @@ class Cli:
             order = files[:]
             lr.shuffle(order)
             # the last line of a list need not end with a newline
-            open(lst, "w").write("\n".join(order) + ("\n" if lr.random() < 0.5 else ""))
+            open(lst, "w").write("\n".join(order) + ("\n" if sc.get("list_nl", True) else ""))
             target = ["--scan-list", lst]
             opts = [o for o in opts if o != "-r"]
         else:
@@ -641,7 +641,9 @@ def gen_scenarios(tier):
             if r.random() < .2:
                 opts.append("-w")
             scs.append({"kind": "threads", "id": "%d" % sid, "tree": t, "rules": rules, "opts": opts, "p": pick_p(), "reps": 2 if quick else 3,
-                        "mode": "list" if r.random() < .15 else "dir"})
+                        "mode": "list" if (oi == 1 or r.random() < .15) else "dir",
+                        # last line of the list with / without a newline: the first tree's forced list scenario has none
+                        "list_nl": (ti % 2 == 1) if oi == 1 else (r.random() < .5)})
         # -l : partial check
         sid += 1
         text, info = gen_rules(r, "%dl" % sid)
